@@ -179,6 +179,9 @@ func cmdCheck(args []string) int {
 	for _, r := range results {
 		fe := map[string]any{"name": r.Key, "ssa": r.Func, "tier": "P"}
 		if r.Err != "" {
+			if *verbose {
+				fmt.Printf("  ERROR %s: %s\n", r.Key, r.Err)
+			}
 			fe["error"] = r.Err
 			violations = append(violations, violation{Obligation: r.Key + "/generate", Reason: "obligations could not be generated: " + r.Err})
 			funcs = append(funcs, fe)
@@ -198,6 +201,9 @@ func cmdCheck(args []string) int {
 				continue
 			}
 			reason := fmt.Sprintf("%s: solver answered %s (%s)", o.Text, o.Res.Status, strings.Join(o.Res.Tried, " "))
+			if *verbose {
+				fmt.Printf("  FAIL %s: %s -- %s\n", o.Name, o.Res.Status, truncate(o.Text, 120))
+			}
 			if o.Kind == "vacuity" {
 				reason = "the precondition of the function is contradictory (vacuous proof)"
 			}
